@@ -17,7 +17,8 @@ LEVEL = "translation_validation"
 ENCODED = ["pyrefact.fixes:*", "pyrefact.performance:*", "pyrefact.symbolic_math:*", "pyrefact.object_oriented:*",
            "pyrefact.abstractions:*", "pyrefact.processing:fix", "pyrefact.processing:_schedule_rewrites",
            "pyrefact.processing:_apply_rewrites", "pyrefact.processing:_do_rewrite", "pyrefact.processing:alter_code"]
-STUBS = ["unknown functions of a snippet are tape-backed (print their arguments, return TAPE.pop() % 3); unknown "
+STUBS = ["numpy programs run with the real numpy (wheelhouse, 2.x) on dtype=object arrays whose entries are proxies",
+         "unknown functions of a snippet are tape-backed (print their arguments, return TAPE.pop() % 3); unknown "
          "values are inputs in -3..3 / lists of inputs"]
 ASSUMPTIONS = [
     "oracle: type-tagged stdout trace + normal termination; an int and its decimal text coincide at top level",
@@ -26,8 +27,9 @@ ASSUMPTIONS = [
     "several rules introduce collections./functools. names by design",
     "a (rule, skeleton) pair is non-trivial only if the rule changes the text",
 ]
-OUTSIDE = ["numpy / pandas rules and import rules (need array shims / a package tree on disk: not exercised, listed in "
-           "evidence)", "programs outside the families"]
+OUTSIDE = ["pandas rules and import rules (need a data-frame shim / a package tree on disk: not exercised, listed in "
+           "evidence)", "numpy rules beyond object arrays of Python integers (fixed-width overflow, floats)",
+           "programs outside the families"]
 
 
 def bounds(tier):
@@ -106,4 +108,4 @@ def evidence_extra(obligations, results):
     return {"programs": sum(1 for r in results if r.get("fired")), "rules_exercised": len(fired),
             "rules_not_exercised": [r for r in rules if r not in fired],
             "fired_per_rule": dict(fired.most_common()),
-            "not_exercised_by_construction": ["performance_numpy.*", "performance_pandas.*", "tracing.*", "import rules"]}
+            "not_exercised_by_construction": ["performance_pandas.*", "tracing.*", "import rules"]}
